@@ -55,6 +55,8 @@ OkGroups ==
     G(<<"-latrange", "60,80">>, Opt("latrange", <<60, 80>>)), G(<<"-lonrange", "15,200">>, Opt("lonrange", <<15, 200>>)),
     G(<<"-elevrange", "0,100">>, Opt("elevrange", <<0, 100>>)), G(<<"-obsrange", "1,4">>, Opt("obsrange", <<R(1), R(4)>>)),
     G(<<"-leg", "Aa,B_b">>, [k |-> "leg", v |-> <<"Aa", "B b">>]), G(<<"-acc">>, [k |-> "acc", v |-> TRUE]),
+    \* pre-aggregation: -T (hours), its aggregator (default mean) and its axis (default leadtime); -Tagg / -Tx alone change nothing
+    G(<<"-T", "13">>, [k |-> "T", v |-> R(13)]), G(<<"-Tagg", "sum">>, [k |-> "Tagg", v |-> "sum"]), G(<<"-Tx", "time">>, [k |-> "Tx", v |-> "time"]),
     G(<<"-c", "CLIM">>, [k |-> "clim", v |-> "subtract"]), G(<<"-C", "CLIM2">>, [k |-> "clim", v |-> "divide"]) }
 \* groups that must be rejected with an error message and a non-zero exit status
 BadGroups ==
@@ -101,7 +103,9 @@ Expected(S, dangling) ==
            agg == SemOf(S, "agg", "mean")
            cfg == [agg |-> agg, q |-> Zero, bt |-> SemOf(S, "b", "above"), t |-> SemOf(S, "r", R(2)), u |-> SemOf(S, "r", R(2))]
            D == IF \E g \in S : g.sem.k = "clim" THEN (IF SemOf(S, "clim", "subtract") = "divide" THEN DCdiv ELSE DC) ELSE D0
-           OO == OptionsOf(S)
+           OO == IF \E g \in S : g.sem.k = "T"
+                 THEN WithOpt(OptionsOf(S), "T", <<SemOf(S, "T", Zero), SemOf(S, "Tagg", "mean"), SemOf(S, "Tx", "leadtime")>>)
+                 ELSE OptionsOf(S)
            legend == SemOf(S, "leg", <<"FILE1", "FILE2">>)
        IN  IF EmptySelection(D, OO) THEN [status |-> "empty", table |-> <<>>, legend |-> legend, axis |-> axis, why |-> "selection leaves nothing"]
            ELSE LET X == Context(D, OO)
